@@ -70,6 +70,17 @@ func schedMaskedNote(detail string) int {
 	return -1
 }
 
+// schedEndNote extracts the model's classification of the end state of an accepted
+// history (`finished`, `done`, `open:<k>`, `crashed`, `loading`; "" if absent).
+func schedEndNote(detail string) string {
+	for _, f := range strings.Fields(detail) {
+		if strings.HasPrefix(f, "end=") {
+			return f[4:]
+		}
+	}
+	return ""
+}
+
 // SCHED: replay every committed sample history (corpus/sched/*.trace).
 func runSchedCorpus(c *Ctx) {
 	dir := filepath.Join(filepath.Dir(c.Corpus), "sched")
